@@ -474,6 +474,9 @@ var C11Concurrent func(c *eng.Ctx, next func() (int, bool))
 // then closed and the C11 order rules applied.
 var C11ResolveRace func(c *eng.Ctx, next func() (int, bool))
 
+// C11ReentrantClose is installed by package conc (a Close method that closes an ancestor scope).
+var C11ReentrantClose func(c *eng.Ctx, next func() (int, bool))
+
 // C11CreateVsClose is installed by package conc (CreateScope overlapping the Close of its parent).
 var C11CreateVsClose func(c *eng.Ctx, next func() (int, bool))
 
@@ -635,14 +638,27 @@ func runC11(c *eng.Ctx) {
 		if C11ResolveRace != nil {
 			C11ResolveRace(c, cr.next)
 		}
+		if C11ReentrantClose != nil {
+			C11ReentrantClose(c, cr.next)
+		}
 		if C11CreateVsClose != nil {
 			C11CreateVsClose(c, cr.next)
 		}
 	}()
 	n := c.Pick(1000, 30000)
 	directed := []*Spec{
-		{Regs: []Reg{mkReg("Leaf_K0_a", godi.Singleton), mkReg("PosA_1_1", godi.Singleton), mkReg("PosA_2_3", godi.Scoped), mkReg("PosB_3_7", godi.Transient), mkReg("Leaf_S0_a", godi.Scoped), mkReg("Leaf_S1_a", godi.Transient)}},
+		{Regs: []Reg{mkReg("Leaf_K0_a", godi.Singleton), mkReg("PosA_1_1", godi.Singleton), mkReg("PosA_2_3", godi.Scoped), mkReg("PosB_3_7", godi.Scoped), mkReg("Leaf_S0_a", godi.Scoped), mkReg("Leaf_S1_a", godi.Transient)}},
 		{Regs: []Reg{mkReg("Leaf_K0_a", godi.Transient), mkReg("PosA_1_1", godi.Singleton), mkReg("PosA_2_2", godi.Singleton)}},
+		// one of two aliases of a singleton removed after the Add call (the first / the second one),
+		// consumers of the remaining alias: the instance is still the singleton's, closed after them
+		{Regs: []Reg{mkReg("Leaf_K0_a", godi.Singleton, withAs("IA", "IK0")), mkReg("InU_2_1_Iface", godi.Singleton), mkReg("InU_3_1_Iface", godi.Scoped), {Remove: true, RmType: "IA", Tail: true}}},
+		{Regs: []Reg{mkReg("Leaf_K0_a", godi.Singleton, withAs("IK0", "IA")), mkReg("InU_2_1_Iface", godi.Singleton), mkReg("InU_3_1_Iface", godi.Transient), {Remove: true, RmType: "IA", Tail: true}}},
+		{Regs: []Reg{mkReg("Leaf_K0_a", godi.Scoped, withAs("IA", "IK0")), mkReg("InU_2_1_Iface", godi.Scoped), mkReg("InU_3_1_Iface", godi.Scoped), {Remove: true, RmType: "IA", Tail: true}}},
+	}
+	for di, d := range directed {
+		if m := NewModel(d); m.Class != ClsOK {
+			panic(fmt.Sprintf("harness fixture %d of C11 (directed) is not buildable: %s", di, m.Class))
+		}
 	}
 	for k := 0; k < n+len(directed); k++ {
 		idx, mine := cr.next()
